@@ -141,10 +141,10 @@ def run_case(case):
 def strategy():
     alpha = "ab" + "Ｅ中" + "̤́" + widths.EXTRA_ZERO + widths.EXTRA_WIDE
     run = st.tuples(st.text(alphabet=alpha, min_size=0, max_size=7), st.sampled_from(FMTS)).map(list)
-    long_run = st.tuples(st.text(alphabet=alpha + "aaab", min_size=20, max_size=150), st.sampled_from(FMTS)).map(list)
+    long_run = st.tuples(st.one_of(st.text(alphabet=alpha + "aaab", min_size=20, max_size=150), st.text(alphabet=alpha + "aaab", min_size=250, max_size=600)), st.sampled_from(FMTS)).map(list)
     descs = st.one_of(st.lists(run, min_size=1, max_size=5), st.lists(run, min_size=1, max_size=5), st.lists(run, min_size=8, max_size=70),
                       st.lists(long_run, min_size=1, max_size=3))
-    cols = st.one_of(st.integers(2, 9), st.integers(2, 9), st.sampled_from([10, 16, 20, 40, 64, 79, 80, 81, 132]))
+    cols = st.one_of(st.integers(2, 9), st.integers(2, 9), st.sampled_from([10, 16, 20, 40, 64, 79, 80, 81, 132, 255, 256, 257, 300]))
     from ..gen import OBS
 
     rep = st.tuples(st.lists(run, min_size=1, max_size=3), st.integers(2, 3)).map(lambda t: [list(r) for r in t[0]] * t[1])
